@@ -4,6 +4,20 @@ import json, os, sys
 HERE = os.path.dirname(os.path.dirname(os.path.abspath(__file__)))
 
 CHECKS = {
+ "C13": dict(level="other", design="4.11",
+   technique="type/mask-based interval analysis of table subscripts + alphabet/sentinel agreement + guard-shape and accumulator-constant consistency rules over the resolved AST",
+   text="Decides structural necessary conditions only: every subscript of the 256-entry decode table and of the 65-byte alphabet literal has an "
+        "index whose interval (from operand types, casts and masks) lies inside the extent; the three alphabet literals equal RFC 4648, the pad is '=', "
+        "the table is built as T[alphabet[i]] = i for exactly i=0..63 over a sentinel outside 0..63; the decoder tests that sentinel before a "
+        "character contributes; the shift/counter/mask constants of both accumulators are mutually consistent. Round-trip equality is NOT decided.",
+   note="Trusts clang's resolved AST and sa/trange.py; an accumulator of a different shape is reported as analysis-broken, not as a violation."),
+ "C16": dict(level="other", design="4.14",
+   technique="symbolic linear-arithmetic entailment (guard implies range) over the span class-template pattern, wrap-free-atom lint, mode table from 4 configurations",
+   text="For each of first/last/subspan (static and dynamic), operator[], front, back the TCB_SPAN_EXPECT condition is converted to linear facts "
+        "(atoms that add two unbounded unsigned values or subtract unordered ones are rejected and reported) and must entail that the returned "
+        "{data()+X, Y} lies in [0,size()] and is exactly the requested sub-range; at() must reject every idx >= size() with out_of_range; begin/end/"
+        "size_bytes/empty/reverse iterators and the 8 constructors must have their defining shape; the contract-mode table is read from 4 configurations.",
+   note="Symbolic over Extent/Offset/Count/size(); trusts clang's pattern AST and sa/linear.py; assumes size()==Extent for static spans; validity of the caller's own range is outside the check."),
  "C04": dict(level="proof", design="4.4",
    technique="presence abstract interpretation (truth-table evaluation) of every overload body over clang's AST of the template patterns",
    text="Decides the property at the level of the overload bodies: each of the ~240 xoptional/xmasked_value operator, compound-assignment, "
